@@ -41,7 +41,7 @@ def _mentions_attr(e, attr):
     return any(isinstance(x, ast.Attribute) and x.attr == attr for x in ast.walk(e))
 
 
-def check_bounds(check, f, subst):
+def check_bounds(check, f, subst, rule='C10.R1'):
     """R1 on one function: classify every arithmetic context mentioning .MaxTime"""
     n_ob = 0
     for n in ast.walk(f.node):
@@ -59,7 +59,7 @@ def check_bounds(check, f, subst):
                 for c in ast.walk(parent_for))
             lo_want = 1 if is_step_loop else 0
             lo_ok = lin_eq(linform(lo, subst), {'': lo_want})
-            check.ob('C10.R1', '%s::range-bound(%s)' % (f.key, 'step-loop' if is_step_loop else 'k-axis'),
+            check.ob(rule, '%s::range-bound(%s)' % (f.key, 'step-loop' if is_step_loop else 'k-axis'),
                      ok and lo_ok, '%s:%d' % (f.module.rel, n.lineno),
                      'range(%s, %s); required range(%d, MaxTime + 1)' % (unparse(lo), lin_str(lf), lo_want),
                      'any horizon: every series must have exactly horizon+1 points')
@@ -71,7 +71,7 @@ def check_bounds(check, f, subst):
             lf = linform(cnt, subst)
             atom = [k for k in (lf or {}) if k.endswith('MaxTime')]
             ok = lf is not None and len(atom) == 1 and lin_eq(lf, {atom[0]: 1, '': 1})
-            check.ob('C10.R1', '%s::broadcast-length' % f.key, ok, '%s:%d' % (f.module.rel, n.lineno),
+            check.ob(rule, '%s::broadcast-length' % f.key, ok, '%s:%d' % (f.module.rel, n.lineno),
                      'scalar broadcast to %s values; required MaxTime + 1' % lin_str(lf),
                      'a float exogenous value with any horizon')
             n_ob += 1
@@ -82,7 +82,7 @@ def check_bounds(check, f, subst):
             atom = [k for k in (lf or {}) if k.endswith('MaxTime')]
             ok = lf is not None and len(atom) == 1 and lin_eq(lf, {atom[0]: 1, '': 1}) and \
                 (sl.lower is None or lin_eq(linform(sl.lower, subst), {'': 0})) and sl.step is None
-            check.ob('C10.R1', '%s::truncation-slice' % f.key, ok, '%s:%d' % (f.module.rel, n.lineno),
+            check.ob(rule, '%s::truncation-slice' % f.key, ok, '%s:%d' % (f.module.rel, n.lineno),
                      'series truncated to [%s:%s]; required [0:MaxTime + 1]' % (unparse(sl.lower) or '0', lin_str(lf)),
                      'an exogenous list longer than the horizon')
             n_ob += 1
@@ -107,7 +107,7 @@ def check_bounds(check, f, subst):
                         opn = {ast.Lt: ast.Gt, ast.LtE: ast.GtE, ast.Gt: ast.Lt, ast.GtE: ast.LtE}.get(opn, opn)
                     # too short  <=>  len < M+1  <=>  len - M - 1 < 0  <=> len - M <= 0
                     ok = (opn is ast.Lt and c == -1) or (opn is ast.LtE and c == 0)
-            check.ob('C10.R1', '%s::too-short-test' % f.key, ok, '%s:%d' % (f.module.rel, n.lineno),
+            check.ob(rule, '%s::too-short-test' % f.key, ok, '%s:%d' % (f.module.rel, n.lineno),
                      'length test `%s`; required: reject exactly len < MaxTime + 1' % txt,
                      'an exogenous list with exactly MaxTime (one too few) / MaxTime+1 (just enough) values')
             n_ob += 1
